@@ -188,7 +188,7 @@ PROPS["C25"] = {
 PROPS["C18"] = {
     "title": "Growing one structure never corrupts another",
     "kani": [("kani/storage/idmap.rs", r"^c18_"), ("kani/storage/pager.rs", r"^c18_")],
-    "e2": [],
+    "e2": ["idmap"],
     "functions_encoded": ["nervusdb_storage::idmap::i2e_location", "pager::Bitmap::{new,get_bit,set_bit,find_free_in_range}"],
     "bounds": {"node ids": "all ids < 2^32, table start page in [2, 65536)", "bitmap": "real 8 KiB bitmap; symbolic 4-byte window "
                "for set/get/find (bits 0..31), any single bit index < 65536 for set/get on a fresh bitmap", "unwind": "4-36"},
@@ -236,11 +236,13 @@ PROPS["C30"].update({
 PROPS["C04"] = {
     "title": "Reopen preserves logical content",
     "kani": [("kani/storage/idmap.rs", r"^c04_")],
-    "e2": [],
-    "functions_encoded": ["nervusdb_storage::idmap::I2eRecord::{encode,decode}"],
-    "bounds": {"record": "all external ids, label ids, flags"},
-    "stubs": [],
-    "assumptions": [],
+    "e2": ["idmap"],
+    "functions_encoded": ["nervusdb_storage::idmap::I2eRecord::{encode,decode}", "IdMap::apply_create_node_multi_label"],
+    "bounds": {"record": "all external ids, label ids, flags", "labels": "label vectors of 1, 2 (quick) and 3 (thorough) symbolic ids, incl. duplicates"},
+    "stubs": ["E2: HashMap contains/insert, slice sort (sorting network over symbolic ids), Vec::dedup (forks over equalities), Pager setters -> Ok, "
+              "write_i2e_record -> Ok and records its arguments"],
+    "assumptions": ["IdMap::load rebuilds a node's label list as vec![record.label_id] (read from the code)",
+                    "callers never pass an empty label vector (the executor passes UNLABELED_LABEL_ID)"],
     "outside_claim": ["WAL record order inside a commit, checkpoint-on-close, label interner replay, properties, relationships"],
     "level_text": "Bounded model checking (Kani/CBMC) of node-table persistence: the persisted node record round-trips bit-exactly; "
                   "(E2) the label list written at node creation equals the list rebuilt by IdMap::load. Partial: node-table persistence only.",
@@ -395,3 +397,13 @@ PROPS["C14"] = {
     "level_note": "Trusted: rustc MIR dump, E2 translator and iterator/set models, z3.",
     "design_ref": "DESIGN.md section 3, C14",
 }
+
+PROPS["C01"]["e2"] = ["c17", "c01"]
+PROPS["C01"]["functions_encoded"] += ["engine::scan_recovery_state"]
+PROPS["C01"]["bounds"]["recovery scan"] = ("committed sequences of <= 2 transactions (quick) / 3 (thorough) with <= 2 ops each over {graph op, "
+                                          "ManifestSwitch(epoch 0..3), Checkpoint(up_to 0..8, epoch 0..3)}, txids 1..8 symbolic")
+PROPS["C01"]["level_text"] = (
+    "Partial (log layer and recovery bookkeeping): path-wise symbolic execution (z3) of Wal::append (an acknowledged record must be "
+    "written where recovery reads next) and of engine::scan_recovery_state (replay skips a committed transaction only if a Checkpoint "
+    "for the final manifest covers it; the final manifest is the latest ManifestSwitch with the greatest epoch; max_txid bounds every "
+    "txid), plus Kani/CBMC round trips of the fixed-size log records. Known finding: append position after a tolerated garbage tail.")
